@@ -394,7 +394,7 @@ fn host_class(h: &[u8]) -> String {
     if h.contains(&b' ') { c.push("space"); }
     if h.contains(&b'\r') || h.contains(&b'\n') { c.push("CR/LF"); }
     if h.contains(&b':') { c.push("colon"); }
-    if std::str::from_utf8(h).is_err() { c.push("non-UTF-8"); }
+    if std::str::from_utf8(h).is_err() { c.push("non-UTF-8"); } else if h.iter().any(|x| *x >= 0x80) { c.push("multibyte"); }
     if h.iter().any(|x| *x < 0x20 && *x != 0 && *x != b'\r' && *x != b'\n') { c.push("control"); }
     if c.is_empty() { "plain".into() } else { c.join("+") }
 }
@@ -403,7 +403,7 @@ fn gen_host(r: &mut Rng) -> Vec<u8> {
     let len = *r.pick(&[0usize, 1, 2, 3, 4, 5, 11, 63, 64, 200, 253, 254, 255, 256, 300, 4096, 9000, 70000]);
     let len = if len > 300 && r.chance(2, 3) { *r.pick(&[7usize, 12, 30]) } else { len };
     let mut h: Vec<u8> = (0..len).map(|i| if i % 9 == 8 { b'.' } else { b'a' + (r.next() % 26) as u8 }).collect();
-    match r.below(14) {
+    match r.below(17) {
         0 => {}
         1 => {}
         2 if len > 0 => { let i = r.below(len); h[i] = b':'; }
@@ -417,6 +417,18 @@ fn gen_host(r: &mut Rng) -> Vec<u8> {
         10 => { h.extend_from_slice(b":80"); }
         11 if len > 0 => { let i = r.below(len); h[i] = *r.pick(&[b'/', b'@', b'\t', 0x7f, b'[', b']', b'%']); }
         12 => { h = (*r.pick(&[&b"1.2.3.4"[..], b"255.255.255.255", b"0.0.0.0", b"[::1]", b"::1", b"[2001:db8::1]", b"::ffff:1.2.3.4", b"127.1", b"localhost"])).to_vec(); }
+        13 | 14 | 15 => {
+            // valid multi-byte UTF-8 of (about) the drawn byte length: character count and byte count differ
+            let chars = ["\u{e9}", "\u{6f22}", "\u{1f600}", "a", "."];
+            let width = r.below(3);
+            let mut s = String::new();
+            while s.len() < len {
+                let c = if r.chance(1, 8) { chars[3 + r.below(2)] } else { chars[if r.chance(3, 4) { width } else { r.below(3) }] };
+                if s.len() + c.len() > len && r.chance(1, 2) { break; }
+                s.push_str(c);
+            }
+            if !s.is_empty() { h = s.into_bytes(); }
+        }
         _ => {}
     }
     h
@@ -429,7 +441,7 @@ pub async fn run(args: &Args) {
         "destinations (host bytes of lengths 0..70000 and classes plain/colon/space/CR/LF/NUL/control/non-UTF-8/multibyte/IP-literal/bracketed x ports {0,1,79,80,255,256,65535}) carried in through every inbound codec (HTTP CONNECT, SOCKS5, SOCKS4a, SOCKS5-UDP header, RPFM attr) and out through every outbound encoder (CONNECT via h11c_connect, SOCKS5, SOCKS4, SOCKS5-UDP, RPFM) with full and partial writes; outgoing bytes parsed by strict reference parsers; 2-hop check through the real peer decoder. distinct = distinct (inbound, outbound, host class, length class, port)",
     );
     let mut rng = Rng::new(args.seed);
-    let n = args.n(1500, 150_000);
+    let n = args.n(8000, 300_000);
     let ports = [0u16, 1, 79, 80, 255, 256, 65535];
     for i in 0..n {
         let d = Dest { host: gen_host(&mut rng), port: *rng.pick(&ports) };
